@@ -54,7 +54,10 @@ def gen_case(R, tier):
   stops = sorted({flt.randrange(len(seq)) for _ in range(2)}) if flt.random() < 0.7 else []
   s = R("sched")
   return {"spec": spec, "inputs": seq, "stops": stops, "sched": [s.choice(VCD_SCHEDS), s.getrandbits(32)],
-          "hash_seed": R.sub_seed("hash")}
+          "hash_seed": R.sub_seed("hash"),
+          # a second VCD-dumping simulator of the same design alive at the same time, driven with other
+          # inputs and ticked in lock step (DUT + reference instance): dumps must not leak between them
+          "coresident": R("cores").random() < 0.25}
 
 
 class DumpSampler:
@@ -132,6 +135,10 @@ def run_case(case):
       mod.time = _T
       try:
         sim = C.Sim(spec, sched, sseed, case["hash_seed"], vcd="dsim_wave", textwave=True)
+        sim2 = None
+        if case.get("coresident"):
+          sim2 = C.Sim(spec, sched, sseed ^ 1, case["hash_seed"] + 1, vcd="dsim_wave_b", textwave=True)
+          stats["fault_counts"]["config.coresident_vcd_simulator"] = 1
       finally:
         mod.time = real_time
   except Exception as e:
@@ -154,8 +161,20 @@ def run_case(case):
   try:
     sys.setprofile(smp.prof)
     try:
+      if sim2 is not None:
+        sys.setprofile(None)
+        sim2.top.sim_reset()
+        sys.setprofile(smp.prof)
       top.sim_reset()
       for t, st in enumerate(case["inputs"]):
+        if sim2 is not None:
+          # the other simulator gets complemented inputs and ticks first
+          sys.setprofile(None)
+          wd = C.input_widths(spec)
+          sim2.set_inputs({"in": {k: (~v) & ((1 << wd[k]) - 1) for k, v in st["in"].items()}, "reset": 0})
+          sim2.top.sim_eval_combinational()
+          sim2.top.sim_tick()
+          sys.setprofile(smp.prof)
         sim.set_inputs(st, stats["fault_counts"])
         for _ in range(st.get("dup_eval", 1)):
           top.sim_eval_combinational()
